@@ -48,11 +48,21 @@ def cases(draw, tier):
         r, c = TP.target_shape(g)
         depth = g.pick([0, 1, 1, 2, 2, 3] + ([4] if tier == "thorough" else []))
         tree = g.op(r, c, depth)
+    derived = None
+    if emph == "ann" and g.integer(1, 4) == 1:
+        # a skew-Hermitian operator K (no declaration): i K is Hermitian, and declaring THAT (a true declaration on a
+        # derived operator) must leave K itself alone
+        def skew(m):
+            B = g.array((m, m), g.pick(gen.CPLX), -2, 2)
+            return {"k": g.pick(["dense", "matmat"]), "a": gen.enc(((B - B.conj().T)).astype(B.dtype))}
+        n = g.integer(1, 5)
+        tree = skew(n) if g.boolean() else {"k": "bd", "ch": [skew(n), skew(g.integer(1, 3))], "mult": None}
+        derived = {"c": [0.0, 1.0], "a": "SelfAdjoint"}
     tower = "".join(draw(st.lists(st.sampled_from("TH"), min_size=1, max_size=3)))
     r, c = IR.denote(tree).shape
     rt, ct = (c, r) if len(tower) % 2 else (r, c)
     return {"tree": tree, "tower": tower, "xl": g.left_operand(r, ranks=(1, )), "Xl": g.left_operand(r, ranks=(2, )),
-            "y": g.operand(ct, ranks=(1, 2))}
+            "y": g.operand(ct, ranks=(1, 2)), "derived": derived}
 
 
 def strategy(tier):
@@ -65,11 +75,14 @@ def apply_ref(M, tower):
     return M
 
 
-def eval_case(tree, tower, xl, Xl, y):
+def eval_case(tree, tower, xl, Xl, y, derived=None):
     R = IR.denote(tree)
     ck = TP.Checker(R.exact, IR.tree_eps(tree))
     try:
         A = IR.build(tree)
+        if derived:
+            import cola
+            getattr(cola, derived["a"])(complex(*derived["c"]) * A)  # a declaration on a derived operator, result unused
     except Exception as e:
         ck.add("build", oracle.exc_man(e), e)
         return ck.fails, R
@@ -105,7 +118,9 @@ def eval_case(tree, tower, xl, Xl, y):
 def check(case, out):
     tree, tower = case["tree"], case["tower"]
     xl, Xl, y = IR.dec(case["xl"]), IR.dec(case["Xl"]), IR.dec(case["y"])
-    fails, R = eval_case(tree, tower, xl, Xl, y)
+    fails, R = eval_case(tree, tower, xl, Xl, y, case.get("derived"))
+    if case.get("derived"):
+        out.label("declared_on_derived")
     out.label(*TP.tree_labels(tree, R))
     out.label("tower:" + tower)
     ks = set(IR.kinds(tree))
@@ -124,7 +139,7 @@ def check(case, out):
         return TP.default_vec(r, xl.dtype), TP.default_mat(r, Xl.shape[0], Xl.dtype, left=True), yy
 
     def refails(s):
-        f = eval_case(s, tower, *operands(s))[0]
+        f = eval_case(s, tower, *operands(s), case.get("derived") if s is tree else None)[0]
         return [] if f == "contaminated" else f
 
     TP.report(out, tree, fails, lambda s: bool(refails(s)), refails)
